@@ -9,6 +9,7 @@ package traefikoidc
 // "wait" is a real sleep (short) or a shift of both caches' expiry times (long).
 
 import (
+	"net/http/httptest"
 	"encoding/json"
 	"fmt"
 	"strings"
@@ -91,6 +92,18 @@ func vfRunVerifyCase(t testing.TB, cs *vfVCase, r *vfRand) {
 			vfCacheAdvance(inst.tokenCache.cache, d)
 			vfCacheAdvance(inst.tokenBlacklist, d)
 			shift += int64(d)
+		case "session":
+			// an ordinary request of a browser whose session holds this token goes through the middleware: whatever it
+			// does with its caches on the way, the next verdict of VerifyToken is judged as before
+			if cookies, err := vfMintSession(vfSessionManager(inst), true, 0, "u@example.com", strs[st.Tok], "", "", "", "", ""); err == nil {
+				req := httptest.NewRequest("GET", "http://app.example.test/app", nil)
+				for _, c := range cookies {
+					if c.MaxAge >= 0 {
+						req.AddCookie(c)
+					}
+				}
+				inst.ServeHTTP(httptest.NewRecorder(), req)
+			}
 		case "revoke":
 			now := time.Since(w.base).Nanoseconds() + shift
 			inst.RevokeToken(strs[st.Tok])
@@ -161,8 +174,10 @@ func vfGenVerifyCase(r *vfRand, id int) *vfVCase {
 		switch x := r.intn(10); {
 		case x < 6:
 			cs.Steps = append(cs.Steps, vfVStep{Op: "verify", Tok: k})
-		case x < 8:
+		case x < 7:
 			cs.Steps = append(cs.Steps, vfVStep{Op: "revoke", Tok: k}, vfVStep{Op: "verify", Tok: k})
+		case x < 8:
+			cs.Steps = append(cs.Steps, vfVStep{Op: "session", Tok: k}, vfVStep{Op: "verify", Tok: k})
 		case x == 8 && robust && shifted < 90:
 			h := int64([]int{1, 23, 25, 30}[r.intn(4)])
 			shifted += h
@@ -183,6 +198,8 @@ func vfVerifyCorpus() []*vfVCase {
 	// 3 s before the END of the expiry tolerance: accepted now, and whatever is cached, rejected once the tolerance is over
 	edge := vfTokSpec{Sub: "u", Email: "u@example.com", ExpIn: -117, IatIn: -900}
 	edgeJ := vfTokSpec{Sub: "u", Email: "u@example.com", ExpIn: -117, IatIn: -900, Jti: "jti-corpus-edge"}
+	rv2 := vfTokSpec{Sub: "held", Email: "u@example.com", ExpIn: 3600, IatIn: -5, Jti: "jti-corpus-held"}
+	rv3 := vfTokSpec{Sub: "held2", Email: "u@example.com", ExpIn: 3600, IatIn: -5}
 	crowd := &vfVCase{Kind: "corpus-crowd"}
 	rv := vfTokSpec{Sub: "revoked", Email: "u@example.com", ExpIn: 3600, IatIn: -5, Jti: "jti-corpus-revoked"}
 	crowd.Toks = append(crowd.Toks, vfVTok{Kind: "minted", Spec: &rv})
@@ -193,8 +210,12 @@ func vfVerifyCorpus() []*vfVCase {
 		crowd.Steps = append(crowd.Steps, vfVStep{Op: "verify", Tok: i}, vfVStep{Op: "verify", Tok: i})
 	}
 	crowd.Steps = append(crowd.Steps, vfVStep{Op: "verify", Tok: 0}, vfVStep{Op: "verify", Tok: 0})
+	// verify, revoke, then the browser that still holds the token sends an ordinary request: still revoked afterwards
+	held := &vfVCase{Kind: "corpus", Toks: []vfVTok{{Kind: "minted", Spec: &rv2}, {Kind: "minted", Spec: &rv3}},
+		Steps: []vfVStep{{Op: "verify", Tok: 0}, {Op: "revoke", Tok: 0}, {Op: "verify", Tok: 0}, {Op: "session", Tok: 0}, {Op: "verify", Tok: 0},
+			{Op: "session", Tok: 1}, {Op: "verify", Tok: 1}, {Op: "revoke", Tok: 1}, {Op: "session", Tok: 1}, {Op: "session", Tok: 1}, {Op: "verify", Tok: 1}}}
 	return []*vfVCase{
-		crowd,
+		crowd, held,
 		{Kind: "corpus", Toks: []vfVTok{{Kind: "minted", Spec: &edge}, {Kind: "minted", Spec: &edgeJ}},
 			Steps: []vfVStep{{Op: "verify", Tok: 0}, {Op: "verify", Tok: 1}, {Op: "verify", Tok: 0}, {Op: "sleep", Ms: 4300},
 				{Op: "verify", Tok: 0}, {Op: "verify", Tok: 1}, {Op: "verify", Tok: 0}}},
